@@ -11,7 +11,7 @@ vars == <<l, rej, cur, skip, verdict, silent, nexec, nin, nbad, nhandled>>
 
 Why(e) ==
   CASE e.e = "H" -> IF verdict = "bad" THEN "C02:malformed-input-handed-to-an-application-handler" ELSE ""
-    [] e.e = "Out" -> IF silent THEN "C02:datagram-that-must-be-silently-ignored-was-answered"
+    [] e.e = "Out" -> IF silent /\ ~IsOwnRequest(e.code) THEN "C02:datagram-that-must-be-silently-ignored-was-answered"
                       ELSE IF verdict = "bad" /\ ~ReplyAllowedForMalformed(e.ty, e.code) THEN "C02:malformed-input-answered-with-something-other-than-reset-or-error" ELSE ""
     [] e.e = "Canary" -> IF e.ok = 1 THEN "" ELSE "C02:endpoint-no-longer-answers-a-well-formed-request-correctly"
     [] e.e = "Hang" -> "C02:endpoint-never-became-quiet"
